@@ -767,6 +767,8 @@ class Discharger:
                 if isinstance(cand, ast.Name):
                     defs = self._defs(f, cand.id)
                     cand = defs[-1] if len(defs) == 1 else None
+                while isinstance(cand, ast.Call) and isinstance(cand.func, ast.Name) and cand.func.id in ("list", "tuple") and len(cand.args) == 1 and not cand.keywords:
+                    cand = cand.args[0]  # list(filter(None, ...)): the same elements
                 if isinstance(cand, ast.Call) and isinstance(cand.func, ast.Attribute) and cand.func.attr == "split" and not cand.args and not cand.keywords:
                     return f"`{var}` is a word of {src(cand)}: str.split() without a separator yields no empty strings"
                 if isinstance(cand, ast.Call) and isinstance(cand.func, ast.Name) and cand.func.id == "filter" and len(cand.args) == 2 and isinstance(cand.args[0], ast.Constant) and cand.args[0].value is None:
